@@ -180,7 +180,9 @@ fn gen_affix_doc(rng: &mut Rng, plain_strike: bool) -> Vec<Node> {
                 }
                 "a" => {
                     let inner = vec![g.word(), Node::Space, g.word()];
-                    nodes.push(El::with("a", inner).attr("href", "/2").node());
+                    // (an empty or blank target is still a link)
+                    let href = *g.rng.pick(&["/2", "/2", "/2", "", " ", "#"]);
+                    nodes.push(El::with("a", inner).attr("href", href).node());
                 }
                 t => {
                     let mut inner = vec![g.word()];
